@@ -30,3 +30,69 @@ func TestC07(t *testing.T) {
 		}
 	}
 }
+
+// TestC11: abandoned streams (handler returns early / caller cancels or stops reading / peer over-sends), other
+// RPCs in flight, a probe RPC afterwards.
+func TestC11(t *testing.T) {
+	em := NewEmitter()
+	defer em.Close()
+	for idx, sc := range c11Scenarios(thorough()) {
+		if want(idx) {
+			runCwScenario(t, idx, "c11", sc, em)
+		}
+	}
+}
+
+// TestC06: the wire histories of every scenario family of this work package, judged by the protocol monitor.
+func TestC06(t *testing.T) {
+	em := NewEmitter()
+	defer em.Close()
+	idx := 0
+	run := func(kind string, sc cwScenario) {
+		if want(idx) {
+			runCwScenario(t, idx, kind, sc, em)
+		}
+		idx++
+	}
+	// Rig A: the real client, all user/peer words (length <= 5 with the open)
+	maxA, maxB := 3, 4
+	if thorough() {
+		maxA, maxB = 4, 5
+	}
+	words(len(clientLetters), maxA, func(w []int) {
+		if sc, ok := clientWord(w); ok {
+			run("c06-client", sc)
+		}
+	})
+	// Rig B: the real server, all client-envelope/handler-operation words
+	ki := 0
+	words(len(serverLetters), maxB, func(w []int) {
+		kind := []string{"Bidi", "CStream", "SStream"}[ki%3]
+		if sc, ok := serverWord(w, kind); ok {
+			ki++
+			run("c06-server", sc)
+		}
+	})
+	for _, sc := range serverSpecials() {
+		run("c06-server", sc)
+	}
+	// Rig C: the end-to-end scenarios of C07 and C11 (quick: a sample; thorough: all)
+	n := 0
+	for ti, bt := range c07BaseTraces() {
+		for p := 0; p <= len(bt.Steps(0)); p++ {
+			for v := 0; v < 6; v++ {
+				n++
+				if !thorough() && ((v/2) != (ti+p+v)%3 || n%4 != 0) {
+					continue
+				}
+				run("c06-e2e", c07Scenario(bt, p, v%2 == 1, v/2))
+			}
+		}
+	}
+	for i, sc := range c11Scenarios(thorough()) {
+		if !thorough() && i%3 != 0 {
+			continue
+		}
+		run("c06-e2e", sc)
+	}
+}
